@@ -92,7 +92,7 @@ theorem stepE_inv {s0 s s' : Store α} {g : List GObj} (cm : Bool) (h : StoreInv
     obtain ⟨o, ho, r, hr, o', ho', rfl⟩ := hs
     obtain ⟨go, hg, hinv⟩ := storeInv_get h ho
     obtain ⟨gr, hgr, hinvr⟩ := storeInv_get h hr
-    exact ⟨_, by simp [gstepOk, hg, hgr], storeInv_set h (inv_append hinv hinvr ho')⟩
+    exact ⟨_, by simp [gstepOk, ho, hg, hgr], storeInv_set h (inv_append hinv hinvr ho')⟩
   | concat is tgt =>
     simp only [stepE, Option.bind_eq_bind, Option.bind_eq_some_iff, Option.pure_def] at hs
     obtain ⟨objs, hobjs, ⟨res, args⟩, hc, hs'⟩ := hs
@@ -208,7 +208,7 @@ theorem objInv_init {s0 : Store α} {o : Obj α} {j : Nat} (hj : s0[j]? = some o
   · simp only [GObj.init, List.map_map]
     have hrow : ∀ q ∈ List.range o.nRdm,
         ((fun r : GRow => renderVec (initEntry s0 r.src) r.cp) ∘
-          (fun q => (⟨(j, q), (List.range o.nCond).map some, true⟩ : GRow))) q = o.vecs.getD q [] := by
+          (fun q => (⟨(j, q), (List.range o.nCond).map some, true, o.rdesc.keys⟩ : GRow))) q = o.vecs.getD q [] := by
       intro q hq
       have hq' : q < o.vecs.length := by simpa [Obj.nRdm] using hq
       simp only [Function.comp, renderVec_init]
@@ -258,23 +258,45 @@ theorem objInv_init {s0 : Store α} {o : Obj α} {j : Nat} (hj : s0[j]? = some o
     simp only [List.getElem_range, Option.map_some, Option.some.injEq] at hi
     subst hi
     simp [GObj.init, hi']
-  · intro key hk _
-    simp only [GObj.init] at hk
-    obtain ⟨col, hc⟩ := Desc.get_of_mem_keys hk
-    have hcl : col.length = o.vecs.length := hwf.rshape _ (Desc.get_mem hc)
-    refine ⟨col, hc, by simp [GObj.init, hcl, Obj.nRdm], ?_⟩
-    intro q r hr
-    simp only [GObj.init, List.getElem?_map] at hr
-    have hq : q < o.nRdm := by
-      by_contra hc'
-      rw [List.getElem?_eq_none (by simpa using hc')] at hr
-      simp at hr
-    rw [List.getElem?_eq_getElem (by simpa using hq)] at hr
-    simp only [List.getElem_range, Option.map_some, Option.some.injEq] at hr
-    subst hr
-    have hq' : q < col.length := by rw [hcl]; simpa [Obj.nRdm] using hq
-    exact ⟨col[q], List.getElem?_eq_getElem hq', o, col, hj, Desc.get_mem hc,
-      List.getElem?_eq_getElem hq'⟩
+  · have hrow : ∀ (q : Nat) (r : GRow), (GObj.init j o.nRdm o.nCond o.rdesc.keys).rows[q]? = some r →
+        q < o.nRdm ∧ r.src = (j, q) ∧ r.rk = o.rdesc.keys := by
+      intro q r hr
+      simp only [GObj.init, List.getElem?_map] at hr
+      have hq : q < o.nRdm := by
+        by_contra hc'
+        rw [List.getElem?_eq_none (by simpa using hc')] at hr
+        simp at hr
+      rw [List.getElem?_eq_getElem (by simpa using hq)] at hr
+      simp only [List.getElem_range, Option.map_some, Option.some.injEq] at hr
+      subst hr
+      exact ⟨hq, rfl, rfl⟩
+    have hval : ∀ key ∈ o.rdesc.keys, ∃ col, o.rdesc.get key = some col ∧ col.length = o.nRdm ∧
+        ∀ q, q < o.nRdm → ∃ v, col[q]? = some v ∧ RVal s0 (j, q) key v := by
+      intro key hk
+      obtain ⟨col, hc⟩ := Desc.get_of_mem_keys hk
+      have hcl : col.length = o.vecs.length := hwf.rshape _ (Desc.get_mem hc)
+      refine ⟨col, hc, by simp [hcl, Obj.nRdm], ?_⟩
+      intro q hq
+      have hq' : q < col.length := by rw [hcl]; simpa [Obj.nRdm] using hq
+      exact ⟨col[q], List.getElem?_eq_getElem hq', o, col, hj, Desc.get_mem hc,
+        List.getElem?_eq_getElem hq'⟩
+    refine ⟨?_, ?_, ?_⟩
+    · intro key hk _
+      simp only [GObj.init] at hk
+      obtain ⟨col, hc, hcl, hv⟩ := hval key hk
+      refine ⟨col, hc, by simp [GObj.init, hcl], ?_⟩
+      intro q r hr
+      obtain ⟨hq, hsrc, _⟩ := hrow q r hr
+      rw [hsrc]; exact hv q hq
+    · intro kv hkv
+      rw [hwf.rshape kv hkv]
+      simp [GObj.init, Obj.nRdm]
+    · intro q r hr key hk _
+      obtain ⟨hq, hsrc, hrk⟩ := hrow q r hr
+      rw [hrk] at hk
+      obtain ⟨col, hc, _, hv⟩ := hval key hk
+      obtain ⟨v, hv1, hv2⟩ := hv q hq
+      exact ⟨col, v, hc, hv1, by rw [hsrc]; exact hv2⟩
 
 theorem ginitFrom_getElem? (k : Nat) (os : Store α) (i : Nat) :
     (ginitFrom k os)[i]? = (os[i]?).map (fun o => GObj.init (k + i) o.nRdm o.nCond o.rdesc.keys) := by
